@@ -108,14 +108,16 @@ pub fn main(args: &[String]) {
             fvcore::tlc_stream(&path, &["URICASE"], |_, c| {
                 rep.evaluations += 1;
                 let tbytes: Vec<u8> = c["template"].as_array().unwrap().iter().map(|x| x.as_u64().unwrap() as u8).collect();
-                let id = c["id"].as_u64().unwrap() as u32;
+                let id = c["id"].as_i64().unwrap();
                 let Ok(tstr) = String::from_utf8(tbytes.clone()) else { return };
-                let entry = AbsEntry { cps: vec![0], feats: vec![], ds: vec![], kids: vec![], conj: false, ign: false, fmt: "glyph".into(), id, sid: None };
+                // id -1: a string id (its bytes in "sid")
+                let sid: Option<Vec<u8>> = (id < 0).then(|| c["sid"].as_array().unwrap().iter().map(|x| x.as_u64().unwrap() as u8).collect());
+                let entry = AbsEntry { cps: vec![0], feats: vec![], ds: vec![], kids: vec![], conj: false, ign: false, fmt: "glyph".into(), id: id.max(0) as u32, sid };
                 let f = AbsFont { ift: Some(AbsTable { compat: 1, tmpl: format!("raw:{tstr}"), entries: vec![entry] }), iftx: None };
                 let built = build_font(&f, 1, &[]);
                 let font = FontRef::new(&built.bytes).unwrap();
                 let def = AbsDef { cps: vec![0], feats: vec![], ds: vec![], fall: false, dall: false, inverted: false };
-                let case = json!({"kind": "uri-template-case", "template": tbytes, "id": id});
+                let case = json!({"kind": "uri-template-case", "template": tbytes, "id": id, "sid": c["sid"]});
                 let r = guarded(|| intersecting_patches(&font, &def.realise()).map(|v| v.iter().map(|u| u.uri_string().map_err(|_| ())).collect::<Vec<_>>()));
                 let want_ok = c["ok"] == true;
                 let want: String = c["out"].as_array().unwrap().iter().map(|x| x.as_u64().unwrap() as u8 as char).collect();
